@@ -13,6 +13,7 @@ Does NOT decide agreement at quiescent points under real interleavings."""
 from ..sym import show, walk_expr
 from ..common import short, trait_impls, coroutine_of, type_holds, strip_view
 from .. import pathq
+from . import names
 from ..report import Report
 from .c07 import wire_writes
 
@@ -32,7 +33,7 @@ RULES = {
 
 def sub_backend(f):
     for ty, outer in trait_impls(f, "MultiPeerBackend", "peer_connected").items():
-        if ty.endswith("SubSocketBackend"):
+        if ty.split("::")[-1] == names.of(f, "SubSocketBackend"):
             return ty, coroutine_of(f, outer)
     return None, None
 
@@ -167,7 +168,7 @@ def run(ctx, f, rep):
                 if ys or aw:
                     window += 1
         rep.floor("R13.1", "registering paths of the SUB backend", nreg, 1)
-        rep.check(window == 0, "R13.4", "R13.4|%s|snapshot-to-registration-window" % ty,
+        rep.check(window == 0, "R13.4", "R13.4|SUB-backend|snapshot-to-registration-window",
                   "no suspension point between reading the subscription set and registering the new peer (%d registering paths await the announcement sends in between: "
                   "a subscribe() running in that window updates the set and walks a table that does not contain the new peer)" % window, co.loc())
         # snapshot closure builds SUBSCRIBE messages
@@ -190,7 +191,7 @@ def run(ctx, f, rep):
         sub = Report("C13", rep.config)
         c04.check_registration(f, sub)
         for o in sub.obls:
-            if "SubSocketBackend" in o.key and "overwrite" in o.key:
+            if names.of(f, "SubSocketBackend") in o.key and "overwrite" in o.key:
                 (rep.ok if o.ok else rep.bad)("R13.1", o.key.replace("R04.4", "R13.1", 1), o.what, o.loc, o.detail)
     # ---- subscribe / unsubscribe
     for fn_name, setop, want_type in (("subscribe", "insert", 1), ("unsubscribe", "remove", 0)):
